@@ -26,6 +26,13 @@ allprops = "--all-props" in sys.argv
 head = subprocess.run(["git", "-C", "/repo", "rev-parse", "--short", "HEAD"], capture_output=True, text=True).stdout.strip()
 
 
+def superseded(sid):
+    try:
+        return bool(json.load(open("/verif/seeded/%s/meta.json" % sid)).get("superseded"))
+    except Exception:
+        return False
+
+
 def evaluate(d):
     sid = os.path.basename(d)
     meta = json.load(open(os.path.join(d, "meta.json")))
@@ -86,7 +93,8 @@ if not only:
                 if rep["checks"][p]["signatures"]:
                     first = rep["checks"][p]["signatures"][0]
                     break
-            f.write("| %s | %s | %s | %s | `%s` |\n" % (sid, prop, rep.get("confirmed"), " ".join(det) or "**none**", first.replace("|", "\\|")))
-bad = [sid for sid, prop, rep in rows if not rep.get("confirmed") or prop not in rep.get("detected_by", [])]
+            f.write("| %s | %s | %s | %s | `%s` |\n" % (sid, prop, rep.get("confirmed"), " ".join(det) or ("superseded (see meta.json)" if superseded(sid) else "**none**"),
+                                                   first.replace("|", "\\|")))
+bad = [sid for sid, prop, rep in rows if (not rep.get("confirmed") or prop not in rep.get("detected_by", [])) and not superseded(sid)]
 print("seeds=%d not-confirmed-or-missed=%s" % (len(rows), bad))
 sys.exit(1 if bad else 0)
